@@ -113,11 +113,12 @@ def make_scheduler(name, mode, seed, cs_kind="mixed", max_t=27, extra=None):
     if name == "dehb":
         from syne_tune.optimizer.schedulers.synchronous import GeometricDifferentialEvolutionHyperbandScheduler
         cs2 = {k: v for k, v in cs.items() if k != "b"} if False else cs
+        kw_s = {"searcher": extra["searcher"]} if extra.get("searcher") else {}   # (default: DEHB's own sampler)
         return GeometricDifferentialEvolutionHyperbandScheduler(cs2, metric=METRIC, mode=mode, resource_attr=RES,
                                                                  max_resource_attr=MAXATTR, grace_period=1,
                                                                  reduction_factor=extra.get("reduction_factor", 3),
                                                                  brackets=extra.get("brackets"), random_seed=seed,
-                                                                 search_options={"debug_log": False})
+                                                                 search_options={"debug_log": False}, **kw_s)
     if name == "pbt":
         from syne_tune.optimizer.schedulers.pbt import PopulationBasedTraining
         return PopulationBasedTraining(cs, metric=METRIC, mode=mode, resource_attr=RES, max_t=max_t,
